@@ -40,6 +40,17 @@ static void fresh(void)
   /* fragments for the gd_include operations (names that do not collide with the generator's) */
   snprintf(cmd, sizeof cmd, "printf '/ENCODING none\\ni_r RAW UINT8 1\\ni_c CONST UINT8 3\\ni_c/m CONST UINT8 4\\ni_s STRING v\\n/ALIAS i_al i_c\\n/ALIAS i_c/ma i_r\\ni_l LINCOM i_r 1 0\\n' > '%s/inc1' && printf '/ENCODING none\\nj_c CONST UINT8 5\\nj_c/k CARRAY UINT8 1 2\\n/ALIAS j_al j_c/k\\nj_b BIT j_c 0 1\\n' > '%s/inc2'", dir, dir);
   if (system(cmd)) { fprintf(stderr, "setup failed\n"); exit(3); }
+  {
+    /* inc3 .. inc8: one parent with three subfields, a RAW field and an alias each, names unique per file,
+     * for building include trees of any depth */
+    int k;
+    for (k = 3; k <= 8; ++k) {
+      snprintf(cmd, sizeof cmd, "printf '/ENCODING none\\nk%d_c CONST UINT8 1\\nk%d_c/m CONST UINT8 2\\nk%d_c/n CONST UINT8 3\\n"
+          "k%d_c/o STRING s\\nk%d_r RAW UINT8 1\\n/ALIAS k%d_al k%d_c/m\\nk%d_p PHASE k%d_r 0\\n' > '%s/inc%d'",
+          k, k, k, k, k, k, k, k, k, dir, k);
+      if (system(cmd)) { fprintf(stderr, "setup failed\n"); exit(3); }
+    }
+  }
   D = gd_open(dir, GD_RDWR);
   if (gd_error(D) || D->n_fragment != 2) { fprintf(stderr, "open failed %d\n", gd_error(D)); exit(3); }
 }
@@ -152,8 +163,12 @@ static void dump(void)
     const char *parent = NULL;
     if (u > 0) {
       const gd_entry_t *E = D->entry[u - 1];
+      int dangling = 0;
       if (E->e->n_meta <= 0) continue;
       parent = E->field;
+      /* gd_nentries and the value lists walk the subfield array: do not follow freed pointers */
+      for (i = 0; i < E->e->n_meta; ++i) if (!live_entry(E->e->p.meta_entry[i])) dangling = 1;
+      if (dangling) { printf("n %s !dangling-subfield\n", show(parent)); continue; }
     }
     printf("n %s", show(parent));
     for (s = 0; s < NMSEL; ++s)
@@ -352,6 +367,32 @@ int main(int argc, char **argv)
         break;
       }
       case 'N': { const char *r = gd_fragment_namespace(D, atoi(t[1]), tok(t[2])); printf("> r %d\n", r ? 0 : gd_error(D)); break; }
+      case 'W': { /* sweep: for the top level and every parent, every selector and flag set: gd_entry_list against gd_nentries */
+        unsigned u, bad = 0; int sI, fI;
+        printf("> w\n");
+        for (u = 0; u <= D->n_entries; ++u) {
+          const char *parent = NULL;
+          if (u > 0) {
+            const gd_entry_t *E = D->entry[u - 1]; int i2, dangling = 0;
+            if (E->e->n_meta <= 0) continue;
+            for (i2 = 0; i2 < E->e->n_meta; ++i2) if (!live_entry(E->e->p.meta_entry[i2])) dangling = 1;
+            if (dangling) { printf("w %s !dangling-subfield\n", show(E->field)); bad++; continue; }
+            parent = E->field;
+          }
+          for (sI = 0; sI < NMSEL; ++sI)
+            for (fI = 0; fI < 4; ++fI) {
+              const char **l = gd_entry_list(D, parent, SEL[MSEL[sI]], fI);
+              unsigned n = gd_nentries(D, parent, SEL[MSEL[sI]], fI), k = 0, dead = 0;
+              if (l) for (; l[k]; ++k) if (!live_str(l[k])) dead++;
+              if (l == NULL || k != n || dead) {
+                printf("w %s sel=%d flags=%d list=%d nentries=%u freed=%u\n", show(parent), MSEL[sI], fI, l ? (int)k : -1, n, dead);
+                bad++;
+              }
+            }
+        }
+        printf("w total-bad %u\n", bad);
+        break;
+      }
       case 'F': { /* lookup with de-aliasing (not a model operation; used by the check's lookup witness) */
         gd_entry_t *E = _GD_FindField(D, tok(t[1]), strlen(tok(t[1])), D->entry, D->n_entries, 1, NULL);
         printf("> f %s\n", E ? show(E->field) : "-");
